@@ -16,6 +16,8 @@ import (
 
 	"github.com/theparanoids/crypki/proto"
 	"golang.org/x/crypto/ssh"
+	"google.golang.org/grpc"
+	"google.golang.org/grpc/credentials"
 
 	"github.com/theparanoids/ysshra/crypki"
 	"github.com/theparanoids/ysshra/verifharness/lib/caserver"
@@ -242,6 +244,17 @@ func twoSigners(r *ev.Run, dir string, caA, caB *caserver.CA, clientCert, client
 				s, err := crypki.NewSigner(crypki.SignerConfig{TLSClientKeyFile: clientKey, TLSClientCertFile: clientCert, TLSCACertFiles: []string{bundle}, CrypkiEndpoints: []string{ip}, CrypkiPort: uint(port), Retries: 1, PerTryTimeout: 10 * time.Second})
 				if err != nil {
 					return 0, err
+				}
+				if bundle == pb {
+					// a caller that builds its own connection from the signer's options and swaps in credentials of
+					// its own (which trust the server's CA): what the signer itself trusts stays what was configured
+					opts := s.DialOptions()
+					pool := x509.NewCertPool()
+					pool.AddCert(caA.Cert)
+					for i := range opts {
+						opts[i] = grpc.WithTransportCredentials(credentials.NewTLS(&tls.Config{RootCAs: pool, MinVersion: tls.VersionTLS12}))
+					}
+					r.Count("signers whose handed-out dial options were overwritten by the caller", 1)
 				}
 				ctx, cancel := context.WithTimeout(context.Background(), 30*time.Second)
 				defer cancel()
